@@ -467,7 +467,9 @@ fn if_helper<'a, 'b: 'a>(w: &mut Vec<u8>,
 			w.write_i16(branch)?;
 		} else {
 			// +1 for the opcode, +2 for the branch
-			let branch = compute_signed_offset(opcode_pos + 1 + 2, target);
+			let goto_w_pos = opcode_pos.checked_add(1 + 2)
+				.with_context(|| anyhow!("code is too large: a wide conditional jump at {opcode_pos} doesn't fit"))?;
+			let branch = compute_signed_offset(goto_w_pos, target);
 
 			w.write_u8(opposite_opcode)?;
 			// target the instruction after the GOTO_W
@@ -477,9 +479,11 @@ fn if_helper<'a, 'b: 'a>(w: &mut Vec<u8>,
 			w.write_i32(branch)?;
 		}
 	} else if wide.contains(&instruction_index) {
+		// target the goto_w instruction: +1 for the opposite_opcode, +2 for the branch
+		let goto_w_pos = opcode_pos.checked_add(1 + 2)
+			.with_context(|| anyhow!("code is too large: a wide conditional jump at {opcode_pos} doesn't fit"))?;
 		unwritten.push(UnwrittenLabel {
-			// target the goto_w instruction: +1 for the opposite_opcode, +2 for the branch
-			opcode_pos: opcode_pos + 1 + 2,
+			opcode_pos: goto_w_pos,
 			instruction_index,
 			label,
 			// target the branch of the goto_w instruction:
